@@ -138,6 +138,79 @@ func c02GenericPrograms(rng *core.Rand, n int, start int) []*progCase {
 	return out
 }
 
+// c02Shape builds one unannotated function whose body is a sequence of lets that put
+// constraints on the parameters in a random order - each parameter is first tied to a
+// structured type of its own (slice / tuple / function) and parameters are unified with
+// each other late - and returns everything it bound in nested pairs. Statements that the
+// independent inference rejects are not added, so the function is well typed by construction.
+func c02Shape(rng *core.Rand, name string) *fo.FuncDef {
+	k := 2 + rng.Intn(3)
+	f := &fo.FuncDef{Name: name, Pure: true}
+	var names []string
+	for i := 0; i < k; i++ {
+		p := fmt.Sprintf("p%d", i)
+		f.Params = append(f.Params, fo.Param{Name: p, NoAnnot: true, T: fo.TVar("?")})
+		names = append(names, p)
+	}
+	v := func(n string) fo.Expr { return &fo.Var{Name: n} }
+	call := func(fn string, args ...fo.Expr) fo.Expr { return &fo.Call{Fn: v(fn), Args: args} }
+	var stmts []fo.Stmt
+	var lets []string
+	prog := &fo.Program{}
+	typable := func(ss []fo.Stmt, res fo.Expr) bool {
+		t := *f
+		t.Body = &fo.Block{Stmts: ss, Result: res}
+		_, err := hm.New(prog).InferFunc(&t)
+		return err == nil
+	}
+	pick := func() string { return names[rng.Intn(len(names))] }
+	n := 3 + rng.Intn(6)
+	for i := 0; i < n*3 && len(lets) < n; i++ {
+		x, y := pick(), pick()
+		var e fo.Expr
+		switch rng.Intn(14) {
+		case 0, 1:
+			e = call("slice.Head", v(x))
+		case 2:
+			e = call(core.Pick(rng, []string{"frt.Fst", "frt.Snd"}), v(x))
+		case 3, 4:
+			e = &fo.SliceLit{Elems: []fo.Expr{v(x), v(y)}}
+		case 5:
+			e = &fo.BinOp{Op: core.Pick(rng, []string{"=", "<>"}), L: v(x), R: v(y)}
+		case 6:
+			e = call("slice.Append", v(x), v(y))
+		case 7:
+			e = &fo.TupleLit{Elems: []fo.Expr{v(x), v(y)}}
+		case 8:
+			e = call("slice.Length", v(x))
+		case 9:
+			e = &fo.BinOp{Op: "+", L: v(x), R: &fo.IntLit{V: 1}}
+		case 10:
+			e = call("slice.PushLast", v(x), v(y))
+		case 11:
+			e = call("slice.Zip", v(x), v(y))
+		case 12:
+			e = call("slice.Last", call("slice.Tail", v(x)))
+		default:
+			e = call("slice.Concat", &fo.SliceLit{Elems: []fo.Expr{v(x), v(y)}})
+		}
+		ln := fmt.Sprintf("v%d", len(lets))
+		cand := append(append([]fo.Stmt{}, stmts...), &fo.Let{Name: ln, E: e})
+		if typable(cand, v(ln)) {
+			stmts = cand
+			lets = append(lets, ln)
+			names = append(names, ln)
+		}
+	}
+	// result: all lets in right-nested pairs (so that no type variable is phantom)
+	var res fo.Expr = v(lets[len(lets)-1])
+	for i := len(lets) - 2; i >= 0; i-- {
+		res = &fo.TupleLit{Elems: []fo.Expr{v(lets[i]), res}}
+	}
+	f.Body = &fo.Block{Stmts: stmts, Result: res}
+	return f
+}
+
 func runC02(r *core.Run, tier string) {
 	env, err := scratch.New("C02")
 	if err != nil {
@@ -247,6 +320,32 @@ func runC02(r *core.Run, tier string) {
 				in.Declare(f.Name, sc)
 			}
 		}
+	}
+	// constraint-shape functions: unannotated parameters tied to structured types and unified late
+	nShapes := 300
+	if tier == "thorough" {
+		nShapes = 6000
+	}
+	for i := 0; i < nShapes; i++ {
+		var f *fo.FuncDef
+		func() {
+			defer func() { recover() }()
+			f = c02Shape(core.NewRand(r.SeedV, fmt.Sprintf("c02shape/%d", i)), fmt.Sprintf("shape%d", i))
+		}()
+		if f == nil || len(f.Body.Stmts) == 0 {
+			continue
+		}
+		sc, err := hm.New(&fo.Program{}).InferFunc(f)
+		if err != nil {
+			continue
+		}
+		var pnames []string
+		for _, p := range f.Params {
+			pnames = append(pnames, p.Name)
+		}
+		vp := &fo.Program{Pkg: "main", Imports: []string{"frt", "slice"}, Decls: []fo.Decl{f}}
+		variants = append(variants, &c02Variant{base: -1, mask: 1<<len(f.Params) - 1, src: fo.Print(vp, nil), name: f.Name, params: pnames, want: normSig(hm.GoSignature(f.Name, pnames, sc))})
+		r.Count("constraint_shape_functions", 1)
 	}
 	// transpile every variant alone
 	base := env.Dir("c02")
